@@ -4,7 +4,10 @@ prop("C02", pkg="c02",
           "kinds, unknown / case- and Unicode-fold-perturbed keys, quoted forms for ,string), mutated, truncated or generic; entry points Unmarshal, "
           "Parse(flags 0), Decoder.Decode with UseNumber x DisallowUnknownFields; two identically built targets, one per library. Oracle: error presence "
           "equal at every step, R-DEEPEQ of the targets after each accepted document; history stops at the first rejected document. Unescape/AppendUnescape "
-          "vs decoding the literal. Non-trivial = accepted with a non-zero result, or both rejected a document of >= 8 bytes; distinct = FNV-64 of "
+          "vs decoding the literal. NestingLimit: documents nested 10000 / 10001 (thorough 9999..10002) deep in 4 shapes into 14 targets with "
+          "object / array decoders of their own (any, map[string]any / RawMessage / string / []string / bool, slices, a struct field, a recursive type). Reading "
+          "the library's target runs with SetPanicOnFault (a wild pointer left by a decode is a violation of the case, not a dead process; the case in flight "
+          "is journalled all the same). Non-trivial = accepted with a non-zero result, or both rejected a document of >= 8 bytes; distinct = FNV-64 of "
           "(type, documents, entry point, flags, prepopulated).",
      quick=dict(shards=16, scale=1, timeout=900),
      thorough=dict(shards=16, rounds=6, scale=1.2, timeout=3000),
